@@ -399,6 +399,7 @@ func (s *Store[H]) setTail(ctx context.Context, write datastore.Write, to uint64
 			return fmt.Errorf("writing headKey in batch: %w", err)
 		}
 		s.contiguousHead.Store(&newTail)
+		s.heightSub.SetHeight(newTail.Height())
 		s.advanceHead(ctx)
 	}
 	return nil
